@@ -17,7 +17,7 @@ type req struct {
 	ts     int64
 	name   string
 	args   [][]byte
-	custom []byte // CustomReq payload (args == nil)
+	custom []byte   // CustomReq payload (args == nil)
 	keys   []string // "class|table:key" items the command may read or write
 	tables []string
 	hll    bool
@@ -57,9 +57,9 @@ type gen struct {
 	// expiry instants (ns) produced by earlier TTL commands: (ts/1e9+dur)*1e9
 	expiries []int64
 	// family weights (swarm): one weight per class + ttl + hll + custom
-	w      []int
-	ttlPm  int
-	badPm  int
+	w       []int
+	ttlPm   int
+	badPm   int
 	lastBad bool
 	burstPm int // probability that a request starts a burst of batchable commands
 	burst   int // batchable commands left in the running burst
@@ -69,8 +69,8 @@ type gen struct {
 	followKey  string
 	followLeft int
 	forceKey   string
-	hot    int // index of a "hot" key used with higher probability
-	ntable int
+	hot        int // index of a "hot" key used with higher probability
+	ntable     int
 }
 
 func b(s string) []byte { return []byte(s) }
